@@ -145,11 +145,11 @@ func (es *eosState) closeMember(m *eosMember) bool {
 		close(m.stop)
 	}
 	done := make(chan struct{})
-	go func() { m.sess.Close(); close(done) }()
+	go func() { s.CloseCl(m.sess.Client(), false); close(done) }()
 	select {
 	case <-done:
-	case <-time.After(5 * time.Minute):
-		s.Violf("C13/hang/close-transact-session", "Close of GroupTransactSession member %s did not return within 5m\n%s", m.name, goroutineDump("kgo"))
+	case <-time.After(s.CloseBoundAtLeast(m.sess.Client(), 5*time.Minute)):
+		s.Violf("C13/hang/close-transact-session", "Close of GroupTransactSession member %s did not return within the bound\n%s", m.name, goroutineDump("kgo"))
 		return false
 	}
 	s.Forget(m.name)
